@@ -673,6 +673,9 @@ def expected_final(opts, exp):
                 echo.append((by_idx[e[1]], e[3]))
             elif e[0] == 'unknown':
                 errs.append('u' + e[1].hex())
+                # the code resumes right after the unknown key (and '='): the value text of an unknown option is
+                # itself read as option text, so each of its (unknown) tokens is reported too
+                errs.extend('u' + v.hex() for v in e[2])
             elif e[0] == 'flagarg':
                 errs.append('a' + e[1].hex())
             elif e[0] == 'intwrap':
@@ -775,6 +778,13 @@ def oracle_wellformed(pi, opts, exp):
             bad.append(('int-out-of-range:silently-wrapped', 'integer literal %d assigned to %s option %r: no error, stored %s' % (v, kind, o.names[0], got)))
     if not is_subsequence(errs, pi['errs']):
         bad.append(('wellformed:error-not-reported', 'expected errors %s (in order) among %s' % (errs, pi['errs'])))
+    elif errs != pi['errs']:
+        # exactly the expected reports and no others: in particular, after "flag=value" is rejected parsing resumes
+        # AFTER the value token - the value text must not be read as a further option (reported as unknown, or set)
+        extra = list(pi['errs'])
+        for e in errs:
+            extra.remove(e)
+        bad.append(('wellformed:spurious-error-after-rejected-item', 'errors %s reported in addition to the expected %s: text of a rejected item (e.g. the value of flag=value) was parsed as further options' % (extra[:5], errs[:8])))
     if not errs and pi['errs']:
         bad.append(('wellformed:spurious-error', 'errors reported for well-formed text: %s' % pi['errs'][:5]))
     if (pi['ret'] == '1') != (not pi['errs']):
@@ -934,7 +944,7 @@ def generate(ck):
 def run(ck):
     if os.environ.get('VERIF_COVERAGE'):
         return coverage_run(ck)
-    N_THEOREMS = 69
+    N_THEOREMS = 70
     # 1. regenerate the source-derived definitions (byte conditions, int conversion, statement skeletons, value kinds)
     gen = os.path.join(LEAN, 'MpVerif', 'Gen', 'C11Tok.lean')
     rc, out, err = sh([sys.executable, os.path.join(VERIF, 'translators', 'gen_c11.py'), REPO, gen, os.path.join(BUILD, 'tr')], timeout=600)
